@@ -166,11 +166,11 @@ class Prop:
             "but of the answers) -> all forms again on the SAME tree with the SAME predicate object (answers looked up by data label) -> "
             "optionally all forms on a SECOND tree that has as many nodes as the first one has then; every phase is compared with the model "
             "on the tree as it is when the phase starts, and judged by the oracle; systematic on all shapes <= 3 (quick) / 4 (thorough) "
-            "nodes x every position, 200 / 1500 random; (c) CLONES: every pair of non-sibling nodes carrying one data object (parent/child included = the region where D24 makes the "
+            "nodes x every position, 200 / 800 random; (c) CLONES: every pair of non-sibling nodes carrying one data object (parent/child included = the region where D24 makes the "
             "copying form raise).  quick: (a) every ordered forest <= 3 nodes x all 6^n verdict assignments x all starts, 4-5 nodes "
             "sampled per (shape, start); (b) 2 nodes exhaustive, 3-4 nodes sampled; (c) 2 nodes exhaustive, 3 sampled; 300 random trees "
             "of 6-14 nodes with clones.  thorough: (a) <= 4 nodes exhaustive, 5 sampled; (b) <= 3 exhaustive, 4 sampled; (c) <= 3 "
-            "exhaustive, 4 sampled; 1200 random.  distinct = distinct (shape, labels, data_ids, verdicts, start); non-trivial = a "
+            "exhaustive, 4 sampled; 800 random.  distinct = distinct (shape, labels, data_ids, verdicts, start); non-trivial = a "
             "non-empty proper subset of the scanned nodes is kept")
     exhaustive_note = ("all forest shapes <= N nodes x all 6^n verdict assignments x all starts (N=3 quick, 4 thorough); with every sibling pair as "
                        "twins and every non-sibling pair as clones: N=2 quick, 3 thorough")
@@ -373,7 +373,7 @@ class Prop:
             yield from self._exhaustive(4, rng, sample=30)
             yield from self._exhaustive(5, rng, sample=4)
         else:
-            yield from self._exhaustive(5, rng, sample=60)
+            yield from self._exhaustive(5, rng, sample=40)
         # equal-comparing siblings under distinct data_ids, clones in different parents: twins answered differently
         yield from self._twins(2, rng)
         if tier == "quick":
@@ -396,7 +396,7 @@ class Prop:
         else:
             yield from self._typed(2, rng)
             yield from self._typed(3, rng)
-            yield from self._typed(4, rng, sample=25)
+            yield from self._typed(4, rng, sample=15)
             yield from self._typed_stop(4, rng, reps=4)
             yield from self._typed_stop(5, rng, reps=1)
         # histories: filter -> a change that keeps the node count -> filter again, SAME predicate object, same tree (and a second tree)
@@ -406,8 +406,8 @@ class Prop:
             yield from self._hist_random(rng, 200)
         else:
             yield from self._hist_systematic(4, rng)
-            yield from self._hist_random(rng, 1500)
-        nrand = 300 if tier == "quick" else 1200
+            yield from self._hist_random(rng, 800)
+        nrand = 300 if tier == "quick" else 800
         weights = [3, 4, 1, 1, 1, 0.4]
         for _ in range(nrand):
             n = rng.randint(6, 14)
